@@ -356,6 +356,8 @@ def check(ctx):
     C11.check(OnlyPanics(ctx, "R12.6"))
     ctx.floor("R12.6", 10)
 
+    check_executor_stream_pairing(ctx, "R12.10")
+    ctx.floor("R12.10", 10)
     # ------------------------------------------------------------------ R12.8 what the close callback can see of the executor is what the executor recorded
     # the callback receives `Arc<dyn StreamExecutorStats>`: the status and the two times reach it only through these accessors.  Each answers the atomic load of its
     # own field and nothing else (a finish accessor turned into "finish - start" is no longer on the start accessor's time base: the callback finds a finish
@@ -397,3 +399,46 @@ def _variant(e):
     if e[0] == "adt": return e[1]
     if e[0] == "const": return str(e[1]).split("::")[-1]
     return show(e)
+
+
+
+def check_executor_stream_pairing(ctx, rule):
+    """every executor the old/new spawners start is registered under the id of the very stream it consumes: in each `spawn_*_from_stream(.., stream_id, stream, ..)` call of
+    the `spawn_*_oldies_executor` family (the calls inside the oldies' close callback included -- captures are resolved to what they were filled with) the id is
+    `create_streams_for_old_and_new_events().K.1` and the stream is built from `.K.0` of the same K.  A newies executor registered under the oldies' id makes a later
+    cancel-by-name (`flush_and_cancel_executor`) end whichever stream holds that recycled id -- an unrelated listener -- while the targeted one keeps running and its close
+    callback never comes."""
+    fx = ctx.fx
+    def comp_of(e, want_last):
+        """K such that e mentions `create_streams_for_old_and_new_events(..).K.<want_last>`"""
+        found = set()
+        def walk(x, depth=0):
+            if not isinstance(x, tuple) or depth > 40: return
+            if x and x[0] == "field" and str(x[1]) == want_last:
+                y = strip_casts(x[2])
+                if y[0] == "field" and strip_casts(y[2])[0] == "call" and strip_casts(y[2])[1].split("::")[-1] == "create_streams_for_old_and_new_events":
+                    found.add(str(y[1]))
+            for z in x:
+                if isinstance(z, tuple): walk(z, depth + 1)
+        walk(e)
+        return found
+    for f in fx.fns:
+        if not ("multi::multi::Multi::spawn_" in f["key"] and "oldies_executor" in f["key"]): continue
+        body = Body(f); dg = D.Dag(body)
+        for (b, c) in body.calls:
+            if not (c.get("fname") or "").endswith("_from_stream"): continue
+            ids = []; streams = []
+            for a in c["args"]:
+                if a[0] not in ("c", "m"): continue
+                ty = body.locals[a[1]["l"]]["ty"]
+                _, e = util.resolve_capture(fx, f["key"], dg.expr(a))
+                if ty == "u32":
+                    k1 = comp_of(e, "1")
+                    if k1: ids.append(k1)
+                elif "Stream" in ty:
+                    k0 = comp_of(e, "0")
+                    if k0: streams.append(k0)
+            if not ids and not streams: continue
+            ok = len(ids) == 1 and len(streams) == 1 and ids[0] == streams[0] and len(ids[0]) == 1
+            ctx.ob(rule, f"{f['key']}|{c['fname']}|id-and-stream-of-the-same-pair|{sorted(streams[0])[0] if streams and streams[0] else '?'}", ok, body.loc(b),
+                   f"registered under the id of pair component {sorted(ids[0]) if ids else '?'}, consuming the stream of component {sorted(streams[0]) if streams else '?'}; required: the same")
